@@ -152,6 +152,9 @@ Definition run_one (cmp_plan : bool) (u : uquery) (t0 : list row) (js : option s
      I (if cmp_plan then plan_hash should_nest (plan should_nest asg u t0 js path) else 0)].
 
 (* input  L [L rows0; L steps; uquery; L assignments; L [I cmp_plan]; walk (ignored: names the mapped relationships)]
+     row = L [I id; up; dn; I v] (up / dn: I fk or L [] for NULL)      step = L [I kind(0 Down,1 Up); I order; I level; L rows]
+     uquery = L [I pred; I k; distinct; group; I order; limit; offset; jstep]   (jstep: L [] = first step of the path, or a step)
+     assignment = L [I code ...]: 0 lazy, 1 joined, 2 subquery, 3 immediate, 4 selectin (default chunk), 10+n selectin chunk n
    output L [L [L [I graph_hash; I plan_hash] per assignment]; L graphs of the first assignment, or L [] when
    they are the query's meaning] *)
 Definition run_case (t : tree) : tree :=
